@@ -31,6 +31,18 @@ NOTES = (
 ALL = [f"C{i:02d}" for i in range(1, 28)]
 
 CHECKS = {
+    "C01": {
+        "technique": "differential testing: sync vs async twins on generated templates x data x config x loader",
+        "text": "Generated templates (all standard and extra tags, filters, expression forms), partials with directory/suffix names, JSON-like data, random flags/tolerance/undefined type and seven loader kinds (with and without namespace) are pushed down both the synchronous and asynchronous path of render, get_template, analyze and analyze_tags in separately built (and in one shared) environments; any difference in output, error class, template name/source/globals or analysis is reported. Sampling, not exhaustive.",
+        "design_ref": "DESIGN.md §4 C01",
+        "note": "Async-only data objects (__getitem_async__) are outside the domain. A crash raised identically on both paths is left to C02.",
+    },
+    "C02": {
+        "technique": "validity-oracle fuzzing: filter x value and tag-argument matrices, hostile-data templates, token soup; exception-type predicate bucketed by call site",
+        "text": "Every registered filter x typed value pool (pairwise-complete in the thorough tier), 44 tag shapes x pool x pool, random templates with hostile data and mutated/soup sources are parsed and rendered sync and async in STRICT, WARN and LAX; anything other than success or a LiquidError subclass is a violation, bucketed by (exception type, innermost liquid/ frame) so each call site is reported once.",
+        "design_ref": "DESIGN.md §4 C02",
+        "note": "Data domain is None/bool/int/float/str/list/dict/range as the property states; custom drops and bytes are not generated.",
+    },
     "C24": {
         "technique": "model-based testing: exhaustive op histories + owned schedules vs list-LRU reference model; thread stress",
         "text": "Every op history up to length 4 (quick) / 5 (thorough) over 20 ops, capacities 1-4, both cache classes, is compared step by step with an independent list model, so within that bound the sequential clause is decided completely; longer random histories sample beyond it. 'While being listed' is decided deterministically by owned schedules (listing begun, other ops interleaved, listing drained); real threads add a one-sided stress.",
